@@ -1,18 +1,17 @@
 CONSTANTS
  Brokers = {"b1","b2"}
- Clients = {"m1","m2"}
- MaxReq = 4
- MaxMoves = 2
- MaxGen = 1000
+ Clients = {"m1","m2","m3"}
+ MaxReq = 1000000
+ MaxMoves = 1000000
+ MaxGen = 1000000
  Apis = {"Join","Sync","Heartbeat","Leave","Commit","Fetch"}
- FixInvalidate = {TRUE}
- DevNoLeaseCheck = {"Commit"}
+ FixInvalidate = {TRUE,FALSE}
+ DevNoLeaseCheck = {}
  DevKeepOwnedOnNotice = FALSE
  DevAcquireBlind = FALSE
  DevSyncNoPersist = FALSE
  DevRestoreGenZero = FALSE
-INIT Init
-NEXT Next
-PROPERTIES G14_ServedOnlyByHolder
-VIEW View
+INIT TInit
+NEXT TNext
+POSTCONDITION Reached
 CHECK_DEADLOCK FALSE
